@@ -108,6 +108,23 @@ def check(run: Run, prog: Program, model: Model, tier: str) -> None:
     run.floor("VALCHK", 12)
 
 
+LOSSY = {"builtins.round": "round()", "builtins.int": "int()", "math.floor": "floor()", "math.ceil": "ceil()",
+         "math.trunc": "trunc()", "builtins.abs": "abs()"}
+
+
+def _lossy_image(v: Any, payload_key: str) -> Optional[str]:
+    """Is `v` a non-identity numeric function of the payload (round/int/floor/ceil/abs applied to it)?"""
+    if isinstance(v, Term) and v.op == "call" and isinstance(v.args[0], str) and v.args[0] in LOSSY:
+        if any(isinstance(a, V) and payload_key in a.key() for a in v.args[1:]):
+            return LOSSY[v.args[0]]
+    if isinstance(v, Term) and v.op in ("bin", "call", "max", "min"):
+        for a in v.args:
+            r = _lossy_image(a, payload_key) if isinstance(a, V) else None
+            if r:
+                return r
+    return None
+
+
 def _walk(t: Any) -> Any:
     yield t
     if isinstance(t, Term):
@@ -250,6 +267,30 @@ def _valchk(run: Run, prog: Program, model: Model, st: SchemaType, ta: TypeAutom
                         run.violated("VALCHK", construct, site,
                                      f"no rejecting branch relates `{argv.key()}` to the fixed {payload}",
                                      witness=f"schema.{st.facade_name}(v).{sh.label} with a contradicting argument is accepted")
+    # LOSSY cross-check: in any reachable state holding the payload (e.g. after a modifier such as precision), a bound
+    # must be compared with the payload itself; comparing it with round(payload, n) / int(payload) / ... leaves a gap
+    # between the payload and its image where the schema rejects its own value.
+    lossy_done: Set[str] = set()
+    for state in ta.states:
+        if payload not in state:
+            continue
+        for sh in ta.shapes:
+            if not sh.well_typed or sh.method == "__call__":
+                continue
+            for o in ta.trans.get((state, sh.key), []):
+                if o.kind != "REJECT" or not o.pred_terms:
+                    continue
+                t, b = o.pred_terms[-1]
+                if not (isinstance(t, Term) and t.op in ("lt", "eq")):
+                    continue
+                for side in t.args:
+                    lossy = _lossy_image(side, f"props.{payload}")
+                    if lossy and sh.label not in lossy_done:
+                        lossy_done.add(sh.label)
+                        run.violated("VALCHK", f"{st.name}.{sh.label} vs {payload}: compared through {lossy}", st.cls.methods[sh.method].loc,
+                                     f"in state {{{','.join(sorted(state))}}} the argument is checked against {side.key()[:70]}, a lossy image of the "
+                                     f"fixed {payload}, while the validator compares the {payload} itself",
+                                     witness=f"schema.{st.facade_name}(3.149).precision(2).{sh.label.split('(')[0]}(3.15) is accepted and rejects its own value")
     # value can only come first (or must be checked against existing constraints)
     for state in ta.states:
         if payload in state or not state:
@@ -316,4 +357,10 @@ MUTANTS += [
      "edits": [(S, "        if (props.value is not Nil) and (len(props.value) != length):", "        if props.value and (len(props.value) != length):")]},
     {"name": "truthiness test on the fixed value before the alphabet check", "rule": "VALCHK",
      "edits": [(S, "        if self.props.value is not Nil:\n            missing_letters", "        if self.props.value:\n            missing_letters")]},
+]
+
+MUTANTS += [
+    {"name": "float bounds compared with the value rounded to the declared precision", "rule": "VALCHK",
+     "edits": [("d42/declaration/types/_float_schema.py", "        if (self.props.value is not Nil) and (value > self.props.value):\n            raise make_incorrect_min_error(self, self.props.value, value)",
+                "        fixed = self.props.value\n        if (fixed is not Nil) and (self.props.precision is not Nil):\n            fixed = round(fixed, self.props.precision)\n        if (fixed is not Nil) and (value > fixed):\n            raise make_incorrect_min_error(self, self.props.value, value)")]},
 ]
